@@ -6,7 +6,7 @@ from ..trace import split_units
 ID = "C18"
 LEVEL = "exploration"
 WORLDS = [(q, "plain") for q in (1, 3)]
-BUDGET = {"quick": dict(cases=700), "thorough": dict(cases=15000)}
+BUDGET = {"quick": dict(cases=1400), "thorough": dict(cases=45000)}
 MIN_NONTRIVIAL = {"quick": 1500, "thorough": 20000}
 BLOB = (400, 1600)
 LINE_TAGS = [b"tag", b"x", b"Hello", b"+EVT: 1", b"t,q"]
